@@ -74,6 +74,50 @@ impl<'a> SpecEnc<'a> {
     fn size_ok(&self, w: u32, h: u32) -> bool {
         w % self.mul.0 == 0 && h % self.mul.1 == 0
     }
+    /// Every ground for rejection that applies to the call. The property names the grounds (wrong size, too many
+    /// surfaces, already cancelled) but not which one is reported when several apply, so any of them is accepted.
+    fn grounds(&self, op: &Op) -> Vec<&'static str> {
+        let n = self.spec.flat.len();
+        let mut g = vec![];
+        if let Op::Write(w, h) | Op::Cancelled(w, h) = op {
+            if matches!(op, Op::Cancelled(..)) {
+                g.push("Cancelled");
+            }
+            if self.k >= n {
+                g.push("TooManySurfaces");
+            } else {
+                let (w, h) = if *w == 0 || *h == 0 { (0, 0) } else { (*w, *h) };
+                let s = &self.spec.flat[self.k];
+                if (s.w, s.h) != (w, h) {
+                    g.push("UnexpectedSurfaceSize");
+                } else if !self.size_ok(s.w, s.h) || self.gen_fail_index().is_some() {
+                    // the surface itself, or a level that would have to be generated after it, has a size the
+                    // format cannot encode
+                    g.push("InvalidSize");
+                }
+            }
+        }
+        g
+    }
+    /// index of the first level that would be generated after the current surface and whose size the format cannot
+    /// encode (None: generation off, a volume, or every generated level is encodable)
+    fn gen_fail_index(&self) -> Option<usize> {
+        let n = self.spec.flat.len();
+        if !self.generate || self.spec.is_volume || self.k >= n {
+            return None;
+        }
+        let mut j = self.k + 1;
+        while j < n && self.spec.flat[j].level != 0 {
+            if !self.size_ok(self.spec.flat[j].w, self.spec.flat[j].h) {
+                return Some(j);
+            }
+            j += 1;
+        }
+        None
+    }
+    fn offset_of(&self, k: usize) -> u64 {
+        self.spec.flat[..k].iter().map(|s| s.len).sum()
+    }
     fn step(&mut self, op: &Op) -> String {
         let n = self.spec.flat.len();
         match op {
@@ -180,8 +224,17 @@ pub fn gen(seed: u64, thorough: bool) -> Vec<String> {
     let mut out = vec![];
     let depth = if thorough { 6 } else { 4 };
     for (li, l) in layouts().iter().enumerate() {
-        for (fi, (fname, _, px, mw, mh)) in FORMATS.iter().enumerate() {
+        for (fi, (fname, fmt, px, mw, mh)) in FORMATS.iter().enumerate() {
             if !thorough && (li + fi) % 2 == 1 && fi > 3 {
+                continue;
+            }
+            // only consistent pairs: the header kind must be able to name the format (the property quantifies over
+            // layouts x formats, not over headers that announce another pixel format than the one encoded)
+            let expressible = match &l.kind {
+                Kind::Dx10 { .. } => DxgiFormat::try_from(*fmt).is_ok(),
+                Kind::Dx9 { .. } => Header::new_image(1, 1, *fmt).to_dx9().is_some(),
+            };
+            if !expressible {
                 continue;
             }
             let spec = build_spec(&l.kind, l.w, l.h, l.d, l.mips, *px);
@@ -364,8 +417,21 @@ pub fn run(line: &str) -> Option<(String, Vec<String>)> {
             Err(e) => err_name(e),
         };
         // oracle: the specification cursor
+        let grounds = se.grounds(op);
+        let (k_before, fail_at) = (se.k, se.gen_fail_index());
         let sres = se.step(op);
-        if sres != rname {
+        // A write whose generated mipmap chain contains a level the format cannot encode fails with InvalidSize. The
+        // property fixes the invariant (bytes written = layout offset of the surface reported as next), not how far
+        // such a call gets before it fails: any stop between "nothing written" and "everything before the failing
+        // level written" is accepted, and the specification cursor follows the implementation there.
+        if let (Op::Write(..), Some(f), "InvalidSize", "InvalidSize") = (op, fail_at, sres.as_str(), rname.as_str()) {
+            let w = data_written(&sink);
+            if let Some(k2) = (k_before..=f).find(|&k2| se.offset_of(k2) as i64 == w) {
+                se.k = k2;
+                se.written = se.offset_of(k2);
+            }
+        }
+        if sres != rname && !(grounds.len() > 1 && grounds.contains(&rname.as_str())) {
             oracle.push(format!("op {i} {}: result {rname}, specification says {sres}", op.fmt()));
         }
         if last_info != se.info() {
